@@ -8,6 +8,7 @@ int vd_parse_main(int argc, char **argv);
 int vd_print_main(int argc, char **argv);
 int vd_minify_main(int argc, char **argv);
 int vd_hooks_main(int argc, char **argv);
+int vd_utils_main(int argc, char **argv);
 
 int main(int argc, char **argv)
 {
@@ -29,6 +30,7 @@ int main(int argc, char **argv)
     else if (!strcmp(mode, "print")) k = vd_print_main(argc, argv);
     else if (!strcmp(mode, "minify")) k = vd_minify_main(argc, argv);
     else if (!strcmp(mode, "hooks")) k = vd_hooks_main(argc, argv);
+    else if (!strcmp(mode, "utils")) k = vd_utils_main(argc, argv);
     else { fprintf(stderr, "vdrv: unknown mode %s\n", mode); k = 2; }
     if (VD.passthrough) fclose(VD.passthrough);
     if (VD.samplef) fclose(VD.samplef);
